@@ -408,7 +408,10 @@ def collect(case, rects, table: RowTable, rep: Report):
 
 
 def canaries(batch):
-    """Corrupted copies of recorded traces that Trace_Canvas must reject."""
+    """Corrupted copies of recorded traces that Trace_Canvas must reject.
+
+    Returns (trace, clause expected, index of the recorded trace it was derived from); the
+    expectation only applies when the recorded trace itself is accepted."""
     rows, traces = batch["rows"], batch["traces"]
     out = []
 
@@ -417,7 +420,7 @@ def canaries(batch):
         return len(rows)
 
     # 1. one colour component of a recorded row altered
-    for t in traces:
+    for base, t in enumerate(traces):
         if batch["canvases"][t["canvas"] - 1]["kind"] != "text":
             continue
         for k, rid in enumerate(t["got"]):
@@ -431,16 +434,16 @@ def canaries(batch):
                 p[4] = (p[4] + 1) % 256
                 t2 = copy.deepcopy(t)
                 t2["got"][k] = new_row(r2)
-                out.append((t2, "crop-text"))
+                out.append((t2, "crop-text", base))
                 break
         if out:
             break
     # 2. a row dropped
-    for t in traces:
+    for base, t in enumerate(traces):
         if len(t["got"]) >= 2:
             t2 = copy.deepcopy(t)
             t2["got"].pop()
-            out.append((t2, "row-count-fewer"))
+            out.append((t2, "row-count-fewer", base))
             break
     # 3. one extra cell at the end of a row
     t = traces[0]
@@ -448,11 +451,11 @@ def canaries(batch):
     r2["toks"].append(lexer.tok("print", n=1, m=32, g="sp"))
     t2 = copy.deepcopy(t)
     t2["got"][0] = new_row(r2)
-    out.append((t2, "columns-beyond"))
+    out.append((t2, "columns-beyond", 0))
     # 4. a wrong number of rows announced by a flow widget
     t2 = copy.deepcopy(traces[0])
     t2["announced"] = len(t2["got"]) + 1
-    out.append((t2, "flow-rows"))
+    out.append((t2, "flow-rows", 0))
     return out
 
 
@@ -537,11 +540,10 @@ def main(rep: Report, replay: dict | None) -> None:
     ncan = 0
     expected_canary = []
     if not replay:
-        for t2, clause in canaries(first):
+        for t2, clause, base in canaries(first):
             first["traces"].append(t2)
             first["_meta"].append(None)
-            expected_canary.append((len(first["traces"]) - 1, clause))
-            ncan += 1
+            expected_canary.append((len(first["traces"]) - 1, clause, base))
     payload = []
     for b in batches:
         payload.append({"rows": b["_table"].rows, "canvases": b["canvases"], "traces": b["traces"]})
@@ -549,15 +551,20 @@ def main(rep: Report, replay: dict | None) -> None:
     rep.states += st
     rep.transitions += tr
 
-    for idx, clause in expected_canary:
+    for idx, clause, base in expected_canary:
         v = verdict_lists[0][idx]
+        if verdict_lists[0][base]["verdict"] != "ok":
+            continue  # the recorded trace is itself rejected (reported below): nothing to learn
         if not v["verdict"].startswith(clause):
             raise tlc.MachineryError(
                 f"corrupted trace ({clause}) was not rejected as such: verdict {v['verdict']!r}")
+        ncan += 1
     rep.extra["corrupted_traces_rejected"] = ncan
 
     classes = set()
     coloured_traces = 0
+    seen = {"text-horizontal-cut-inside-image": 0, "gfx-vertical-trim-with-placements": 0,
+            "gfx-horizontal-trim": 0, "flow-canvas": 0, "box-canvas": 0}
     for b, vs in zip(batches, verdict_lists):
         for meta, v in zip(b["_meta"], vs):
             if meta is None:
@@ -566,6 +573,13 @@ def main(rep: Report, replay: dict | None) -> None:
             rep.traces_validated += 1
             W, H, iw, ih = geo["W"], geo["H"], geo["iw"], geo["ih"]
             if v["verdict"] == "ok":
+                gfx = case["style"] != "block"
+                if (tl, tt, cols, rows) == (0, 0, W, H):
+                    seen["flow-canvas" if case["sizing"] == "flow" else "box-canvas"] += 1
+                if gfx and (tl or cols != W):
+                    seen["gfx-horizontal-trim"] += 1
+                if gfx and not (tl or cols != W) and rows < H and v["coloured"] > 0:
+                    seen["gfx-vertical-trim-with-placements"] += 1
                 if v["coloured"] > 0:
                     coloured_traces += 1
                     padl = {"<": 0, ">": W - iw}.get(case["ha"], (W - iw) // 2)
@@ -575,6 +589,8 @@ def main(rep: Report, replay: dict | None) -> None:
                     key = (case["style"], case["ident"], case["sizing"], case["upscale"], case["ha"],
                            case["va"], case["alpha"], hc, vc)
                     classes.add((case["ha"], case["va"], hc, vc))
+                    if not gfx and "image" in hc:
+                        seen["text-horizontal-cut-inside-image"] += 1
                     rep.distinct.add(key)
                 continue
             if v["verdict"].startswith(("unsupported", "bad-trace")):
@@ -588,6 +604,11 @@ def main(rep: Report, replay: dict | None) -> None:
                 f"case={json.dumps(case)}",
                 {"case": case, "rect": [tl, tt, cols, rows]},
             )
+    rep.extra["accepted_by_kind"] = seen
+    if not replay and not rep.violations:
+        empty = [k for k, n in seen.items() if n == 0]
+        if empty:
+            raise tlc.MachineryError(f"vacuous: no accepted trace of kind {empty}")
     rep.extra["canvases"] = ncanv
     rep.extra["canvases_skipped_too_big"] = skipped
     rep.extra["trims_with_coloured_expectation"] = coloured_traces
